@@ -1016,7 +1016,9 @@ def main():
     #      entries that are garbage; each entry of J^T g is compared with the exactly rounded sum of ITS OWN terms ----
     import math
     from fractions import Fraction
-    wide = [c for c in clean if c.exact and c.step == 1.0 and not c.pairing_only and "rev" in c.modes and rng.random() < (0.5 if cfg.get("tier") == "thorough" else 0.2)]
+    wide = [c for c in clean if c.exact and c.step == 1.0 and not c.pairing_only and "rev" in c.modes
+            and (c.prim in ("cumsum", "sum", "diff", "trace", "mean", "dot", "matmul", "tensordot", "einsum", "inner", "convolve", "gradient", "ediff1d", "trapezoid", "cumulative_sum")
+                 or rng.random() < (0.5 if cfg.get("tier") == "thorough" else 0.2))]
     for c in wide:
         for k in c.diff:
             x = c.args[k]
